@@ -44,6 +44,10 @@ func main() {
 		fmt.Fprintln(os.Stderr, "unknown check", os.Args[1])
 		os.Exit(2)
 	}
+	if os.Getenv("VERIF_CHILD") == "" && os.Getenv("VERIF_NO_SUPERVISOR") == "" {
+		os.Exit(supervise(os.Args[1:]))
+	}
+	rt.OpenSlots()
 	rt.SubRun = strings.HasSuffix(os.Args[0], ".small")
 	if os.Args[2] == "--sub" && len(os.Args) >= 4 {
 		rt.SubDump = true
